@@ -7,6 +7,7 @@ import (
 	"math/big"
 	"os"
 	"path/filepath"
+	"sort"
 	"strings"
 	"testing"
 
@@ -63,6 +64,15 @@ func sortedChars(s string) string {
 		m[c] = true
 	}
 	return strings.Join(oracle.CharSpec{AllowChars: s}.Alphabet(), "")
+}
+
+func o16keys(m map[string]bool) []string {
+	var out []string
+	for k := range m {
+		out = append(out, k)
+	}
+	sort.Strings(out)
+	return out
 }
 
 func readLines(path string) ([]string, error) {
@@ -211,6 +221,61 @@ func c16Run(it c16Item) error {
 				return fmt.Errorf("preset %s reports entropy %v, want log2(%d) = %.6f", name, math.Float32frombits(b), len(want), wantEnt)
 			}
 		}
+	case "budget":
+		// "defaults to 200 attempts": a stream on which every candidate fails
+		r := spg.CharRecipe{Length: 2, AllowChars: "ab", RequireSets: []string{"b"}}
+		// learn which index gives the non-required character
+		bad := -1
+		for j := 0; j < 2; j++ {
+			o := callForced([]uint32{uint32(j), uint32(j)}, func(k int, n uint32) uint32 { return uint32(1 - j) }, 3, r.Generate)
+			if len(o.S.Draws) > 2 {
+				bad = j
+			}
+		}
+		if bad < 0 {
+			return &ev.Inc{Why: "no failing candidate found"}
+		}
+		o := callForced(nil, func(k int, n uint32) uint32 { return uint32(bad) }, 3, r.Generate)
+		if o.Panic != nil || o.Pw != nil || o.Err == nil {
+			return fmt.Errorf("every attempt fails, yet Generate returned %v, %v, panic %v", o.Pw, o.Err, o.Panic)
+		}
+		if len(o.S.Draws) != 200*2 {
+			return fmt.Errorf("the retry budget is documented as 200 attempts; on an all-fail stream Generate made %d draws = %.1f attempts", len(o.S.Draws), float64(len(o.S.Draws))/2)
+		}
+	case "class_filter":
+		// a class required through its flag, in an alphabet padded with every
+		// other printable ASCII character: exactly the documented members satisfy it
+		name := []string{"Uppers", "Lowers", "Digits", "Symbols", "Ambiguous"}[it.Arg]
+		other := ""
+		for ch := byte(33); ch < 127; ch++ {
+			if !strings.ContainsRune(doc[name], rune(ch)) {
+				other += string(rune(ch))
+			}
+		}
+		sp := oracle.CharSpec{Length: 2, Require: map[string]uint32{"Uppers": oracle.Uppers, "Lowers": oracle.Lowers, "Digits": oracle.Digits, "Symbols": oracle.Symbols, "Ambiguous": oracle.Ambiguous}[name], AllowChars: other}
+		r := toRecipe(sp)
+		n := uint32(len(sp.Alphabet()))
+		accepted := map[string]bool{}
+		for j := uint32(0); j < n; j++ {
+			jj := j
+			// the first candidate is one character twice; later draws pseudo-random
+			o := callForced([]uint32{jj, jj}, func(k int, m uint32) uint32 { return uint32(ev.Mix64(uint64(jj), uint64(k)) % uint64(m)) }, 3, r.Generate)
+			if o.Panic != nil {
+				return fmt.Errorf("Generate panicked: %v", o.Panic)
+			}
+			if o.Pw != nil && len(o.S.Draws) == 2 {
+				accepted[oracle.Chars(o.Pw.String())[0]] = true
+			}
+			if o.Pw != nil {
+				if ok, why := sp.Valid(o.Pw.String()); !ok {
+					return fmt.Errorf("Require: %s accepted %q (%s)", name, o.Pw.String(), why)
+				}
+			}
+		}
+		if len(o16keys(accepted)) != len(oracle.Chars(doc[name])) {
+			return fmt.Errorf("Require: %s is satisfied by a candidate made of one of %q twice, documented members are %q", name, o16keys(accepted), doc[name])
+		}
+		ev.Leaves(int64(n))
 	case "list":
 		name := []string{"words", "syllables"}[it.Arg]
 		list, file := spg.AgileWords, "agwordlist.txt"
@@ -263,7 +328,10 @@ func TestC16(t *testing.T) {
 		for i := 0; i < 7; i++ {
 			items = append(items, c16Item{What: "preset", Arg: i})
 		}
-		items = append(items, c16Item{What: "list", Arg: 0}, c16Item{What: "list", Arg: 1})
+		items = append(items, c16Item{What: "list", Arg: 0}, c16Item{What: "list", Arg: 1}, c16Item{What: "budget"})
+		for i := 0; i < 5; i++ {
+			items = append(items, c16Item{What: "class_filter", Arg: i})
+		}
 		for i, it := range items {
 			if i%ev.Cfg.NShards != ev.Cfg.Shard {
 				continue
